@@ -1,6 +1,7 @@
 import Lean.Data.Json
 import GwModel.Mono
 import GwModel.MergeSchema
+import GwModel.Intro
 /-! JSON decoding/encoding for the line driver (I/O glue, not part of any theorem). -/
 open Lean
 
@@ -29,10 +30,11 @@ def decDir (j : Json) : Dir :=
 
 def decArg (j : Json) : String × ArgVal :=
   let name := getStr j "name"
-  match getObj? j "var", getObj? j "str" with
-  | some (.str v), _ => (name, .var v)
-  | _, some (.str s) => (name, .str s)
-  | _, _ => (name, .other)
+  match getObj? j "var", getObj? j "str", getObj? j "bool" with
+  | some (.str v), _, _ => (name, .var v)
+  | _, some (.str s), _ => (name, .str s)
+  | _, _, some (.bool b) => (name, .bool b)
+  | _, _, _ => (name, .other)
 
 partial def decSel (j : Json) : Sel :=
   let dirs := (getArr j "dirs").map decDir
@@ -155,5 +157,46 @@ def runMerge (j : Json) : Json :=
   match MergeS.mergeSchemas srcs with
   | some m => Json.mkObj [("ok", encMerged st m)]
   | none => Json.mkObj [("err", .str "incompatible")]
+
+end Codec
+
+namespace Codec
+open Intro
+
+def optS (j : Json) (k : String) : Option String :=
+  match getObj? j k with | some (.str s) => some s | _ => none
+
+partial def decTRef (j : Json) : TRef :=
+  match optS j "name" with
+  | some n => .named n
+  | none =>
+    let inner := match getObj? j "ofType" with | some o => decTRef o | none => .named "?"
+    if getStr j "kind" == "LIST" then .list inner else .nonNull inner
+
+def decIValue (j : Json) : IValue :=
+  { name := getStr j "name", description := optS j "description",
+    type := (match getObj? j "type" with | some t => decTRef t | none => .named "?"), defaultValue := optS j "defaultValue" }
+
+def decISchema (j : Json) : ISchema :=
+  { description := optS j "description"
+    query := getStr j "query", mutation := optS j "mutation", subscription := optS j "subscription"
+    types := (getArr j "types").map fun t =>
+      { kind := getStr t "kind", name := getStr t "name", description := optS t "description", specifiedByURL := optS t "specifiedByURL"
+        fields := (getArr t "fields").map fun f =>
+          { name := getStr f "name", description := optS f "description", args := (getArr f "args").map decIValue,
+            type := (match getObj? f "type" with | some x => decTRef x | none => .named "?"),
+            deprecated := getBool f "deprecated", reason := optS f "reason" }
+        interfaces := strList t "interfaces", possible := strList t "possible"
+        enumValues := (getArr t "enumValues").map fun v =>
+          { name := getStr v "name", description := optS v "description", deprecated := getBool v "deprecated", reason := optS v "reason" }
+        inputFields := (getArr t "inputFields").map decIValue }
+    directives := (getArr j "directives").map fun d =>
+      { name := getStr d "name", description := optS d "description", locations := strList d "locations",
+        args := (getArr d "args").map decIValue, repeatable := getBool d "repeatable" } }
+
+def runIntro (j : Json) : Json :=
+  let schema := match getObj? j "schema" with | some s => decISchema s | none => default
+  let env : Mono.Env := { possible := [], store := [], vars := match getObj? j "vars" with | some v => (kvs v).map fun (k, x) => (k, decVar x) | none => [] }
+  Json.mkObj [("data", encVal (Intro.introSpec schema env ((getArr j "frags").map decFrag) ((getArr j "sels").map decSel)))]
 
 end Codec
